@@ -407,6 +407,9 @@ CLAIMS["C07"]["text"] += (" NifObj.tla models a NifFile object as a container: T
                           "assign / CopyFrom / clear / save calls on one object with a donor; at every save a fresh object built with the "
                           "content the machine assigns must write the same bytes, and the written file is judged by WellFormedViol.")
 
+CLAIMS["C17"]["text"] += (" The partition API machine of C10 (PartApi.tla: every call history up to L calls, labels read back up to renumbering, "
+                          "body parts following their triangles) also runs here.")
+
 def main():
     props = [json.loads(l) for l in open(os.path.join(ROOT, "properties.jsonl"))]
     commits = subprocess.run(["git", "-C", "/repo", "log", "--format=%H %s", "32497ec..HEAD"], stdout=subprocess.PIPE).stdout.decode().splitlines()
